@@ -30,6 +30,7 @@ func init() {
 			{ID: "C07.R5", Min: 5, Desc: "shutdown wiring: poison kill of root, cancel, guardian goroutine", Fn: c07Wiring},
 			{ID: "C07.R7", Min: 1, Desc: "a remote send in its retry loop aborts once the system context is cancelled, so Stop is not held up by an unreachable peer (part of C14.R4)", Fn: c14StopAborts},
 			{ID: "C07.R8", Min: 3, Desc: "the work of Stop is serialised with the start-up: one lock taken with the status flip in Start, held across the start-up chain, taken by stop before it looks at what Start creates", Fn: c07StartStopSerialised},
+			{ID: "C07.R9", Min: 1, Desc: "every mutex acquisition is released on every path (no call can block forever on a leaked lock)", Fn: lockPairing},
 			{ID: "C07.R6", Min: 1, Desc: "guard signal closed only for the root's own OnKilled", Fn: c07GuardSignal},
 		},
 	})
